@@ -56,7 +56,10 @@ def classify(pid, violation, findings):
 
 
 def run_shard(pid, tier, seed, shard, nshards, n_cases, timeout):
-    cmd = [PY, "-m", "vmon.worker", pid, "--tier", tier, "--seed", str(seed),
+    # the last shard runs under `python -O` (assert statements and __debug__ blocks compiled away): the properties
+    # are about the library, not about an interpreter flag
+    opt = ["-O"] if (nshards > 1 and shard == nshards - 1) else []
+    cmd = [PY, *opt, "-m", "vmon.worker", pid, "--tier", tier, "--seed", str(seed),
            "--shard", f"{shard}/{nshards}", "--cases", str(n_cases)]
     env = dict(os.environ)
     env["PYTHONPATH"] = VERIF + os.pathsep + env.get("PYTHONPATH", "")
@@ -74,6 +77,7 @@ def run_shard(pid, tier, seed, shard, nshards, n_cases, timeout):
             try:
                 results.append(json.loads(line))
                 results[-1]["hashseed"] = shard
+                results[-1]["python_O"] = bool(opt)
             except json.JSONDecodeError:
                 pass
     err = None
@@ -182,7 +186,8 @@ def main(argv=None):
         path = os.path.join(d, f"{args.tier}-{args.seed}-{r['idx']}-{tag}.json")
         with open(path, "w") as fh:
             json.dump({"property": pid, "tier": args.tier, "seed": args.seed, "idx": r["idx"],
-                       "hashseed": r.get("hashseed", 0), "case": r.get("case"), "violation": v}, fh, indent=1,
+                       "hashseed": r.get("hashseed", 0), "python_O": r.get("python_O", False), "case": r.get("case"),
+                       "violation": v}, fh, indent=1,
                       default=str)
         replay_paths.append(os.path.relpath(path, VERIF))
 
@@ -204,6 +209,7 @@ def main(argv=None):
                                 if len(s) <= 64},
                 "skipped": skipped,
                 "string_hash_seeds": sorted({r.get("hashseed", 0) for r in results}),
+                "cases_run_under_python_O": sum(1 for r in results if r.get("python_O")),
                 "exhaustive": False,
                 "known_findings_seen": {m: n for m, (f, n, v) in known_hits.items()},
                 "verdict": ("violated" if violations else
@@ -248,10 +254,13 @@ def replay(pid, path):
     with open(path) as fh:
         rec = json.load(fh)
     want = str(rec.get("hashseed", 0))
-    if os.environ.get("PYTHONHASHSEED") != want:
-        # the case ran under this string-hash seed: re-run the replay in an interpreter started with it
+    want_O = bool(rec.get("python_O"))
+    if os.environ.get("PYTHONHASHSEED") != want or bool(sys.flags.optimize) != want_O:
+        # the case ran under this string-hash seed (and possibly under python -O): re-run the replay in an interpreter
+        # started the same way
         e = dict(os.environ, PYTHONHASHSEED=want)
-        return subprocess.run([PY, "-m", "vmon.cli", pid, "--replay", path], env=e, cwd=VERIF).returncode
+        return subprocess.run([PY, *(["-O"] if want_O else []), "-m", "vmon.cli", pid, "--replay", path], env=e,
+                              cwd=VERIF).returncode
     from vmon import env  # noqa: F401
     prop = load_prop(pid)
     if rec.get("case") is None or rec["case"].get("post_run"):
